@@ -274,8 +274,7 @@ func cmdLspCheck(args []string) {
 
 // ---- navigation at every position -------------------------------------------------
 
-var varHoverRe = regexp.MustCompile("^```numscript\\n\\$([a-z0-9_]+): ([a-z]+)\\n```$")
-var fnHoverRe = regexp.MustCompile("^`([a-z_]+)\\(")
+var wordRe = regexp.MustCompile(`\$?[A-Za-z_][A-Za-z0-9_]*`)
 
 type lspRange struct {
 	Start struct{ Line, Character int } `json:"start"`
@@ -306,7 +305,9 @@ func cmdNavCheck(args []string) {
 					pos := J{"line": li, "character": ch}
 					h := lsp.Handle(lspReq("textDocument/hover", J{"textDocument": J{"uri": uri}, "position": pos}), &st)
 					d := lsp.Handle(lspReq("textDocument/definition", J{"textDocument": J{"uri": uri}, "position": pos}), &st)
-					rec := []any{li, ch, "", "", "", -1, -1, -1, -1, -1, -1, -1, -1}
+					// <<line, char, hover present, words of the hover text, hover range, definition range>>
+					// the wording of the hover is not pinned: only which names it mentions
+					rec := []any{li, ch, 0, []any{}, "", -1, -1, -1, -1, -1, -1, -1, -1}
 					hb, _ := json.Marshal(h)
 					if string(hb) != "null" {
 						var hv struct {
@@ -314,13 +315,11 @@ func cmdNavCheck(args []string) {
 							Range    lspRange               `json:"range"`
 						}
 						json.Unmarshal(hb, &hv)
-						if m := varHoverRe.FindStringSubmatch(hv.Contents.Value); m != nil {
-							rec[2], rec[3], rec[4] = "var", m[1], m[2]
-						} else if m := fnHoverRe.FindStringSubmatch(hv.Contents.Value); m != nil {
-							rec[2], rec[3] = "fn", m[1]
-						} else {
-							rec[2], rec[3] = "other", hv.Contents.Value
+						words := []any{}
+						for _, w := range wordRe.FindAllString(hv.Contents.Value, -1) {
+							words = append(words, w)
 						}
+						rec[2], rec[3] = 1, words
 						rec[5], rec[6], rec[7], rec[8] = hv.Range.Start.Line, hv.Range.Start.Character, hv.Range.End.Line, hv.Range.End.Character
 						hits++
 					}
